@@ -399,3 +399,117 @@ def header_calls(st):
     if isinstance(st, (ast.Try, ast.ExceptHandler)):
         return []
     return calls_in(st)
+
+
+# --------------------------------------------------------------------------
+# relevance-pruned paths (avoids 2^n blow-up in long emitter functions)
+# --------------------------------------------------------------------------
+
+def _contains(st, pred):
+    for n in ast.walk(st):
+        if pred(n):
+            return True
+    return False
+
+
+def prune(body, pred):
+    """Copy of a statement list in which compound statements that contain no
+    node satisfying `pred` (and no return/raise/break/continue) are replaced by
+    `ast.Pass` placeholders that keep the original location."""
+    out = []
+    for st in body:
+        if isinstance(st, (ast.If, ast.For, ast.While, ast.With, ast.Try)):
+            exits = _contains(st, lambda n: isinstance(n, (ast.Return, ast.Raise, ast.Break, ast.Continue)))
+            if not _contains(st, pred) and not exits:
+                p = ast.Pass()
+                ast.copy_location(p, st)
+                p._orig = st
+                out.append(p)
+                continue
+            new = _shallow_copy(st)
+            for fld in ("body", "orelse", "finalbody"):
+                if hasattr(st, fld) and isinstance(getattr(st, fld), list):
+                    setattr(new, fld, prune(getattr(st, fld), pred))
+            if isinstance(st, ast.Try):
+                new.handlers = []
+                for h in st.handlers:
+                    nh = _shallow_copy(h)
+                    nh.body = prune(h.body, pred)
+                    new.handlers.append(nh)
+            out.append(new)
+        else:
+            out.append(st)
+    return out
+
+
+def _shallow_copy(node):
+    new = type(node)()
+    for f in node._fields:
+        if hasattr(node, f):
+            setattr(new, f, getattr(node, f))
+    ast.copy_location(new, node)
+    new._orig = node
+    return new
+
+
+def stable_names(func):
+    """Parameter names never re-bound inside the function."""
+    params = set(a.arg for a in func.args.args + func.args.kwonlyargs)
+    for n in ast.walk(func):
+        if isinstance(n, ast.Name) and isinstance(n.ctx, ast.Store) and n.id in params:
+            params.discard(n.id)
+    return params
+
+
+def feasible(path, stable):
+    """False when the path takes both polarities of a test that only reads
+    stable names (correlated branches such as `if top: push ... if top: pop`)."""
+    seen = {}
+    for test, pol in path.conds:
+        names = set(n.id for n in ast.walk(test) if isinstance(n, ast.Name))
+        if not names or not names <= stable:
+            continue
+        if any(isinstance(n, ast.Call) for n in ast.walk(test)):
+            continue
+        key = ast.dump(test)
+        if key in seen and seen[key] != pol:
+            return False
+        seen[key] = pol
+    return True
+
+
+def feasible_flags(path):
+    """Constant-propagate `name = <bool constant>` along the path and reject
+    paths that then take the wrong arm of `if name:` / `if not name:`."""
+    env = {}
+    ci = 0
+    for st in path.stmts:
+        if isinstance(st, ast.If):
+            if ci >= len(path.conds):
+                break
+            test, pol = path.conds[ci]
+            ci += 1
+            val = None
+            if isinstance(test, ast.Name) and test.id in env:
+                val = env[test.id]
+            elif isinstance(test, ast.UnaryOp) and isinstance(test.op, ast.Not) and \
+                    isinstance(test.operand, ast.Name) and test.operand.id in env:
+                val = not env[test.operand.id]
+            if val is not None and bool(val) != pol:
+                return False
+        elif isinstance(st, ast.Assign):
+            for t in st.targets:
+                for tt in (t.elts if isinstance(t, (ast.Tuple, ast.List)) else [t]):
+                    if isinstance(tt, ast.Name):
+                        if isinstance(st.value, ast.Constant) and isinstance(st.value.value, bool) \
+                                and len(st.targets) == 1 and tt is t:
+                            env[tt.id] = st.value.value
+                        else:
+                            env.pop(tt.id, None)
+        elif isinstance(st, ast.AugAssign) and isinstance(st.target, ast.Name):
+            env.pop(st.target.id, None)
+        elif isinstance(st, (ast.For, ast.While)):
+            for n in ast.walk(st):
+                if isinstance(n, ast.Name) and isinstance(n.ctx, ast.Store):
+                    env.pop(n.id, None)
+    return True
